@@ -315,9 +315,23 @@ def r3_representation_switch(ctx):
     if ar is None:
         raise AnalysisError("Charge.array not found")
     sts = [s for s, t in stores(ar.node, lambda t: dotted(t) == "self._array")]
-    ok = len(sts) == 1 and norm(sts[0].value) == "self.convert_df_to_array()" and only_knows(enclosing_tests(sts[0]), "not self._frame.empty")
-    rets = [r for r in returns_of(ar) if r.value is not None]
-    ok = ok and len(rets) == 1 and dotted(rets[0].value) == "self._array"
+    # decided per path (sa/paths.py): with clusters the view IS convert_df_to_array() and is kept in
+    # self._array; without clusters the stored array is returned untouched
+    from sa.paths import canon_test, enumerate_paths as _enum_paths
+
+    ok = True
+    rpaths = [q for q in _enum_paths(ar.node.body) if q.exit in ("return", "fall")]
+    ok = bool(rpaths)
+    for q in rpaths:
+        pols = {p2 for t, p in q.conds for t2, p2 in [canon_test(t, p)] if norm(t2) == "self._frame.empty"}
+        st_q = [e for e in q.stores("self._array") if e.target == "self._array"]
+        val = norm(q.value) if q.value is not None else None
+        if pols == {False}:
+            ok = ok and len(st_q) == 1 and st_q[0].value is not None and norm(st_q[0].value) == "self.convert_df_to_array()" and val == "self.convert_df_to_array()"
+        elif pols == {True}:
+            ok = ok and not st_q and val == "self._array"
+        else:
+            ok = False
     ctx.check(ok, ar.qual, "array view recomputed from the clusters whenever clusters exist" if ok else "the array view does not reflect the cluster table", where=ar, node=sts[0] if sts else ar.node)
 
 
